@@ -408,7 +408,8 @@ def ferret_program(r, ty, nops, gates):
         k += 1
     # (the parser has no binary & | ^, so the and/or/xor helpers are reachable only through the C entry points)
     oplist = ["add", "sub", "mul", "div", "mod", "pow", "eq", "lt", "gt", "ne", "le", "ge",
-              "neg", "to64", "from64", "xfrom64", "fromsmall", "compound"]
+              "neg", "to64", "from64", "xfrom64", "fromsmall", "compound", "ctrl"]
+    helpers = []
     for j in range(nops):
         op = oplist[j % len(oplist)]
         if op in ("add", "sub", "mul", "div", "mod", "pow"):
@@ -458,6 +459,18 @@ def ferret_program(r, ty, nops, gates):
             v = x - (1 << w) if ts[0] == "i" and x >= (1 << (w - 1)) else x
             emit(["  let a%d: %s = %d;" % (k, ts, v), "  let r%d := a%d as %s;" % (k, k, ty),
                   '  io::Println("" + r%d);' % k], str(sval(ty, v % M)), "(%d : %s) as %s" % (v, ts, ty))
+        elif op == "ctrl":
+            # the same large literal in a branch that is not taken / a loop that does not run, and again after it (seed C16e:
+            # a literal materialised once per function, at its textually first use)
+            a = gen_val(r, ty); c3 = gen_val(r, ty)
+            A, C3 = sval(ty, a), sval(ty, c3)
+            helpers.append("fn h%d(x: %s, flag: bool, n: i32) -> %s {\n  let r: %s = x;\n  if flag { r = r + %s; }\n  let i: i32 = 0;\n"
+                           "  while i < n { r = r - %s; i = i + 1; }\n  r = r + %s;\n  return r;\n}\n" % (k, ty, ty, ty, lit(ty, c3), lit(ty, c3), lit(ty, c3)))
+            kk = k
+            for flag, n_ in ((False, 0), (True, 2), (False, 1), (True, 0)):
+                e = (A + C3 * ((1 if flag else 0) - n_ + 1)) % M
+                emit(['  io::Println("" + h%d(%s, %s, %d));' % (kk, lit(ty, a), "true" if flag else "false", n_)],
+                     str(sval(ty, e)), "h(x=%s, flag=%s, n=%d) with literal %s" % (lit(ty, a), flag, n_, lit(ty, c3)))
         elif op == "compound":
             a, b = gen_pair(r, ty, "sub")
             c2 = gen_val(r, ty)
@@ -470,6 +483,7 @@ def ferret_program(r, ty, nops, gates):
                   '  io::Println("" + a%d);' % k], str(sval(ty, e)),
                  "a=%s; a -= %s; a *= %s; a++" % (lit(ty, a), lit(ty, b), lit(ty, c2)))
     src.append("}")
+    src[2:2] = helpers
     return "\n".join(src) + "\n", exp, descr
 
 def lowering_stage(run, work, nops):
